@@ -627,3 +627,64 @@ func TestF28_PointerDepthWraps(t *testing.T) {
 		t.Fatalf("256 levels of indirection accepted: %v", f.Input().Values())
 	}
 }
+
+// F29 (C06): a nil value of a function type was accepted as a converter and the call panicked.
+func TestF29_NilFunctionValue(t *testing.T) {
+	var conv func(int) string
+	if _, err := am.NewFunc(conv); err == nil {
+		t.Fatal("NewFunc accepted a nil function value")
+	}
+	defer func() {
+		if p := recover(); p != nil {
+			t.Fatalf("panic: %v", p)
+		}
+	}()
+	f := am.MustFunc(am.NewFunc(func(string) int { return 0 }))
+	if res := f.Call(am.Typed(1), am.Converter(conv)); res.Err() == nil {
+		t.Fatal("a nil function converter was accepted")
+	}
+}
+
+// F30 (C06): the call graph was rendered (every value formatted with %v) on every call, whatever the log level:
+// a supplied value that contains itself overflowed the stack.  Run in a child process by check C06; here the
+// rendering is only shown not to happen any more at the default level by bounding the recursion with a timeout.
+func TestF30_SelfContainingValue(t *testing.T) {
+	type cyc map[string]interface{}
+	m := cyc{}
+	m["self"] = m
+	f := am.MustFunc(am.NewFunc(func(a int) int { return a }))
+	done := make(chan error, 1)
+	go func() { done <- f.Call(am.Typed(3), am.Typed(m), am.Logger(hclog.NewNullLogger())).Err() }()
+	select {
+	case err := <-done:
+		if err != nil {
+			t.Fatal(err)
+		}
+	case <-time.After(5 * time.Second):
+		t.Fatal("the call did not return")
+	}
+}
+
+// F31 (C08, C16): NewFunc and Redefine kept the caller's option slice.
+func TestF31_OptionSliceRetained(t *testing.T) {
+	opts := []am.Arg{am.Named("a", 7)}
+	f := am.MustFunc(am.NewFunc(func(in struct {
+		am.Struct
+		A int
+	}) int {
+		return in.A
+	}, opts...))
+	opts[0] = am.Named("a", 8) // the caller reuses its slice
+	if res := f.Call(); res.Err() != nil || res.Out(0).(int) != 7 {
+		t.Fatalf("default changed after NewFunc returned: %v %v", res.Err(), res)
+	}
+	ropts := []am.Arg{am.Named("a", 5)}
+	rf, err := f.Redefine(ropts...)
+	if err != nil {
+		t.Fatal(err)
+	}
+	ropts[0] = nil
+	if res := rf.Call(); res.Err() != nil || res.Out(0).(int) != 5 {
+		t.Fatalf("redefined function changed after Redefine returned: %v", res.Err())
+	}
+}
